@@ -23,7 +23,10 @@ PROPS = {
              "simple-promote legal generators return exactly the corresponding subsets, never panic, no duplicates; "
              "validate_iff_generated: Move::validate and apply-and-test agree with that set; ingredients proved: generator exactness "
              "(mem_genWith_iff), genWith_nodup, prefilter soundness (pinned_has_diag/line, prefilter_sound, isLegal_default), exactness of "
-             "the unprefiltered legality test on all three code paths (isLegal_nil), make_refines_apply, pseudo_iff_semilegal",
+             "the unprefiltered legality test on all three code paths (isLegal_nil), make_refines_apply, pseudo_iff_semilegal; "
+             "Props/C01_perft: the rules enumerate each move once (pseudoMoves_nodup, legalMoves_nodup), the generator's output is a "
+             "permutation of the rules' legal moves (legalGen_perm), perft through the model = perft by the rules for every depth and "
+             "valid position (perft_eq); Props/C01_sanity: kernel-checked published perft-1 counts of six standard positions",
              [],
              "Lean 4 theorems over all valid positions (kernel-decided geometry facts over all squares; sliders for all 2^64 occupancies via C15); "
              "differential (generators vs Lean Spec oracle, D1 family enumerated) ties the model to the code",
@@ -49,7 +52,10 @@ PROPS = {
              "update_castling, clocks, en-passant mark)", "§6 C03"),
     "C04": P("proof", "unmake_make: for every board whose derived state is consistent and every move satisfying the per-kind "
              "precondition MakeOk (implied by well-formed+semilegal, true for the null move), unmake(make b mv) = b in all fields "
-             "(cells, side, rights, ep, both counters, hash, white, black, all, 13 piece sets); nested sequences by induction",
+             "(cells, side, rights, ep, both counters, hash, white, black, all, 13 piece sets); nested sequences by induction; "
+             "Props/C04_objects: restored_is_original / restored_null_is_original (for every VALID board and every well-formed semilegal "
+             "move, legal or not, and the null move), reached_validates, valid_null, null_validates — the theorems that let the "
+             "correspondence ask any position question of a restored or reached board object (DESIGN §11.5)",
              [],
              "Lean 4 theorem about the Impl model of do_make_move/do_unmake_move (all 10 move kinds), tied by differential correspondence",
              "§5, §6 C04"),
